@@ -33,6 +33,7 @@ import (
 	"github.com/moov-io/ach"
 	"github.com/moov-io/ach/server"
 
+	"verifharness/internal/gen"
 	"verifharness/internal/hx"
 	"verifharness/internal/rng"
 )
@@ -144,6 +145,27 @@ func loadPools() *pools {
 		p.text = append(p.text, string(bs))
 		p.textN = append(p.textN, filepath.Base(f))
 	}
+	// generated valid files: every SEC code, then mixed files with IAT / returns / NOC / addenda
+	// (fixed generator seed: pool indices must not depend on VERIF_SEED)
+	func() {
+		defer func() { recover() }()
+		gr := rng.New(0xC17)
+		add := func(name string, f *ach.File) {
+			if f == nil {
+				return
+			}
+			if t, err := gen.Text(f, false); err == nil && len(t) < 40000 {
+				p.text = append(p.text, t)
+				p.textN = append(p.textN, name)
+			}
+		}
+		for _, sec := range gen.AllSECs() {
+			add("gen-"+sec, gen.FileOfSEC(gr, sec, gen.Opts{MaxBatches: 2, MaxEntries: 3}))
+		}
+		for i := 0; i < 8; i++ {
+			add(fmt.Sprintf("gen-mixed-%d", i), gen.File(gr, gen.Opts{MinBatches: 2, MaxBatches: 4, IAT: true, Returns: i%2 == 0, NOC: i%3 == 0, Addenda: true}))
+		}
+	}()
 	// JSON bodies: fixtures, plus the JSON form of every text fixture the reader accepts
 	var bases, names []string
 	bases = append(bases, "{garbage")
